@@ -138,10 +138,39 @@ pub fn determinism(verif_dir: &str, props: &[&'static str]) -> Result<(), String
                 ev["coverage"]["distinct_nontrivial"].as_u64().unwrap_or(0),
             ));
         }
+        // ... and in a separate process (fresh address space, fresh thread ids)
+        if let Ok(exe) = std::env::current_exe() {
+            let pdir = format!("{}/proc", scratch);
+            let _ = std::fs::create_dir_all(&pdir);
+            let out = std::process::Command::new(exe)
+                .arg(prop)
+                .arg("quick")
+                .env("VERIF_DIR", &pdir)
+                .env("VERIF_SEED", "7")
+                .env("VERIF_WORKERS", "3")
+                .env("BPSIM_SELFTEST_SCALE", "40")
+                .env("BPSIM_CHILD", "1")
+                .output();
+            if let Ok(o) = out {
+                if o.status.code() == Some(0) {
+                    if let Ok(t) = std::fs::read_to_string(format!("{}/evidence/{}.json", pdir, prop)) {
+                        if let Ok(ev) = serde_json::from_str::<serde_json::Value>(&t) {
+                            digests.push((
+                                ev["coverage"]["event_log_digest"].as_str().unwrap_or("").to_string(),
+                                ev["coverage"]["evaluations"].as_u64().unwrap_or(0),
+                                ev["coverage"]["distinct_nontrivial"].as_u64().unwrap_or(0),
+                            ));
+                        }
+                    }
+                } else {
+                    return Err(format!("{} child process exited with {:?}", prop, o.status.code()));
+                }
+            }
+        }
         if digests.iter().any(|d| *d != digests[0]) {
             return Err(format!("{} is not deterministic: {:?}", prop, digests));
         }
-        println!("selftest determinism {}: {:?} identical at 1/16/5 workers", prop, digests[0]);
+        println!("selftest determinism {}: {:?} identical at 1/16/5 workers and in a separate process ({} runs compared)", prop, digests[0], digests.len());
     }
     Ok(())
 }
